@@ -308,3 +308,6 @@ Fixpoint last_free (l : list op) : bool :=
   end.
 Definition no_free (l : list op) : bool := forallb (fun o => negb (is_free o)) l.
 Definition run_free (r : option (op * jpc)) : bool := match r with Some (OFree, _) => true | _ => false end.
+
+Definition reachable (items : list item) (s : state) : Prop := exists tr, run (init items) tr = Some s.
+Definition is_process (e : event) : bool := match e with EProcess _ => true | _ => false end.
